@@ -195,7 +195,12 @@ func NewWorld(cfg Config) (*World, error) {
 		nd, err := NewNode(s, cfg.NumShards, NodeCfg{DNS: dnsList, EnableUserNameChange: cfg.NameChange, ActivationEpoch: cfg.ActivationEpoch, LateSchedule: cfg.LateSchedule, DNSIntruder: intruder},
 			RandSchedule(sr, 0), cfg.StartEpoch, payTable)
 		if err != nil {
-			return nil, err
+			// the factory refused a valid configuration (or could not build its container): there is no
+			// world to run, and that is what C18 says cannot happen
+			w.Broken = true
+			w.StopAtFirst = true
+			w.violate(spec.Violation{Props: spec.P("C18"), Clause: "construction", Detail: fmt.Sprintf("building the functions of shard %d from a valid configuration failed: %v", s, err)})
+			return w, nil
 		}
 		nd.Codec.Report = func(detail string) {
 			w.violate(spec.Violation{Props: spec.P("C14"), Clause: "codec", Detail: detail})
@@ -417,6 +422,14 @@ func (w *World) Apply(ev Event) bool {
 		}
 		w.Stats.Faults["payability-changed-by-upgrade"]++
 		w.logf("upgrade %x -> payability state %d", addr, st)
+	case "quiesce":
+		// end of a run: faults are off, lagging clocks are brought forward, and everything in flight is
+		// delivered (with the refunds and continuations that causes). Bounded liveness: afterwards
+		// nothing is left in flight
+		w.Drain(4*len(w.Pool) + 50)
+		if !w.Stop() && len(w.Pool) > 0 {
+			w.reportStuck()
+		}
 	case "probe":
 		applied = w.Probe(ev)
 	default:
@@ -576,4 +589,42 @@ func (w *World) checkRetained() {
 			return
 		}
 	}
+}
+
+// reportStuck: messages that cannot be consumed although no fault is injected any more. Tokens they
+// carry are neither at their destination nor back at their sender (C01); when the function they
+// address is missing from the container or inactive against the confirmed epoch, that is the cause (C18).
+func (w *World) reportStuck() {
+	props := spec.P("C01", "C10")
+	var parts []string
+	for _, m := range w.Pool {
+		why := "refused or not consumed"
+		fn, _, err := spec.ParseData(m.Data)
+		if err == nil && int(m.DstShard) >= 0 && m.DstShard < uint32(len(w.Nodes)) {
+			nd := w.Nodes[m.DstShard]
+			bf, gerr := nd.Container.Get(fn)
+			switch {
+			case gerr != nil && !nd.HostRemoved[fn]:
+				why = "the container of shard " + fmt.Sprint(nd.ID) + " has no function of that name"
+				props = append(props, "C18")
+			case gerr == nil && !bf.IsActive():
+				why = fmt.Sprintf("the function is inactive on shard %d (confirmed epoch %d, activation epoch %d)", nd.ID, nd.Clock.Current, nd.Cfg.ActivationEpoch)
+				if nd.Clock.Current >= nd.Cfg.ActivationEpoch || !epochGated[fn] {
+					props = append(props, "C18")
+				}
+			}
+		}
+		parts = append(parts, fmt.Sprintf("%s (%s) %q to %x: %s", m.ID, m.Kind, trunc(m.Data, 80), m.Rcv, why))
+		if len(parts) >= 4 {
+			break
+		}
+	}
+	w.violate(spec.Violation{Props: props, Clause: "stuck-in-flight", Detail: fmt.Sprintf("with faults off and every message offered for delivery, %d message(s) stay in flight: %s", len(w.Pool), strings.Join(parts, "; "))})
+}
+
+func trunc(s string, n int) string {
+	if len(s) > n {
+		return s[:n] + "..."
+	}
+	return s
 }
